@@ -34,7 +34,7 @@ def label3(label, bos=1):
 
 def enc_element(kind, shape, v):
     """encoding of one list element of the given kind/shape from symbolic values v (list of ints)"""
-    if kind == 'prefix4':
+    if kind in ('prefix4', 'prefix4-mp'):
         return E.prefix(octs(v[:4]), shape)
     if kind == 'prefix6':
         addr = bytes.fromhex(shape['addr'])
@@ -199,6 +199,10 @@ def decode(kind, shape, data):
     if kind == 'prefix4':
         from yabgp.message.update import Update
         return Update.parse_prefix_list(data)
+    if kind == 'prefix4-mp':
+        # IPv4 unicast carried in MP_REACH_NLRI / MP_UNREACH_NLRI (AFI 1, SAFI 1) has a decoder of its own
+        from yabgp.message.attribute.nlri.ipv4_unicast import IPv4Unicast
+        return IPv4Unicast.parse(data)
     if kind == 'prefix6':
         from yabgp.message.attribute.nlri.ipv6_unicast import IPv6Unicast
         return IPv6Unicast.parse(data)
@@ -292,6 +296,7 @@ def obligations(tier, seed):
     out = []
     pools = {
         'prefix4': list(range(0, 33)),
+        'prefix4-mp': list(range(0, 33)),
         'lu4': [0, 1, 8, 9, 16, 24, 25, 32] if quick else list(range(0, 33)),
         'vpnv4': [0, 1, 8, 9, 16, 24, 25, 32] if quick else list(range(0, 33)),
         'community': [None],
